@@ -41,7 +41,7 @@ def plan(tier, seed):
                 {'named': '2DPGA'}, {'p': 4, 'q': 0, 'r': 0}, {'p': 2, 'q': 1, 'r': 0, 'opts': {'wrapper': 'wraps'}},
                 {'p': 1, 'q': 1, 'r': 1}, {'p': 3, 'q': 1, 'r': 0}, {'p': 2, 'q': 0, 'r': 0, 'opts': {'symcls': 'sympy'}},
                 {'p': 1, 'q': 0, 'r': 1}, {'p': 0, 'q': 2, 'r': 0}]
-        per, nshards = 3, 16
+        per, nshards = 5, 16
     else:
         cfgs = gen.sig_orderings(2, 3) + gen.pqr_all(4, 4) + gen.NAMED[:2]
         cfgs += [dict(c, opts={'cse': False}) for c in rng.sample(gen.sig_orderings(2, 3), 8)]
